@@ -611,7 +611,15 @@ func (w *MarkdownWriter) isListParagraph(para *document.Paragraph) bool {
 	if para.Properties == nil {
 		return false
 	}
-	return para.Properties.NumberingProperties != nil
+	numPr := para.Properties.NumberingProperties
+	if numPr == nil {
+		return false
+	}
+	// <w:numId w:val="0"/> 表示取消该段落的编号（覆盖样式中的编号），不是列表项
+	if numPr.NumID != nil && numPr.NumID.Val == "0" {
+		return false
+	}
+	return true
 }
 
 // isNumberedList 判断是否为编号列表
